@@ -128,3 +128,93 @@ func runC10Wide(c *kernel.Ctx) {
 	c.NonTrivial()
 	c.State(fmt.Sprintf("wide subs=%d pubs=%d rate=%d", nsub, npub, rate))
 }
+
+// runC10Stall — a slow consumer: one of two subscribers stops reading (its socket buffer is
+// tiny) while a publisher sends a burst; the broker's writes to it stall for 6-40 simulated
+// seconds, then it reads again. Nothing may be cut short because time passed: afterwards both
+// subscribers' streams parse and carry the publisher's messages once and in order.
+// (Clients are attached below the listener stack: a write that blocks there holds no mutex
+// that another goroutine could want, so the bubble stays quiescent while it blocks.)
+func runC10Stall(c *kernel.Ctx) {
+	t := c.Tape
+	c.SleepToEpoch()
+	lic := world.Licenses[2]
+	b := world.StartBroker(c, world.BrokerOpts{Lic: lic, Cluster: t.Chance(1, 2), NodeName: "00:00:00:00:00:01", Advertise: "10.0.0.1:4000", StateDir: ":memory:"})
+	defer b.Close()
+	mk := func(name string) *mqttc.Client {
+		cl := b.Attach(name)
+		world.ConnectClient(c, cl, name, "", nil)
+		return cl
+	}
+	admin := mk("admin")
+	key := world.Keygen(c, admin, lic.Master, "#/", "rw", 0)
+	slow, ok, pub := mk("slow"), mk("ok"), mk("pub")
+	for _, s := range []*mqttc.Client{slow, ok} {
+		s.Send(s.Subscribe(key + "/w/"))
+		world.Settle()
+		s.Recv()
+	}
+	limit := t.Range(64, 400)
+	slow.Conn.SetPeerWriteLimit(limit)
+	n := t.Range(3, 12)
+	var buf []byte
+	for k := 1; k <= n; k++ {
+		pl := fmt.Sprintf("p0:%d:", k) + strings.Repeat("x", []int{10, 150, 900}[t.Choose(3)])
+		buf = append(buf, mqttc.Encode(pub.Publish(key+"/w/", []byte(pl), false, false))...)
+	}
+	pub.Write(buf)
+	world.Settle()
+	stall := time.Duration(t.Range(6, 40)) * time.Second
+	for el := time.Duration(0); el < stall; el += 2 * time.Second {
+		time.Sleep(2 * time.Second)
+		world.Settle()
+		for _, x := range []*mqttc.Client{admin, ok} {
+			x.Send(mqttc.Ping())
+		}
+		world.Settle()
+	}
+	c.Stats.SimTime += stall
+	c.Fault("slow-consumer")
+	c.Logf("stall campaign: %d publishes, the slow subscriber (socket buffer %d bytes) does not read for %v", n, limit, stall)
+	check := func(name string, pk []packets.ControlPacket, err error) {
+		if err != nil {
+			c.Check("framing", "stall", "the stream of subscriber %s is not a sequence of well-formed packets after a stall of %v: %v", name, stall, err)
+		}
+		seen := 0
+		for _, x := range pk {
+			p, isPub := x.(*packets.PublishPacket)
+			if !isPub || p.TopicName != "w/" {
+				continue
+			}
+			f := strings.SplitN(string(p.Payload), ":", 3)
+			k, _ := strconv.Atoi(f[1])
+			if len(f) < 3 || f[0] != "p0" || k != seen+1 {
+				c.Check("order", "stall", "subscriber %s got %.20q after message %d", name, p.Payload, seen)
+			}
+			seen = k
+		}
+		if seen != n {
+			c.Check("loss", "stall", "subscriber %s received the publisher's messages up to %d, %d were published (it had stopped reading for %v)", name, seen, n, stall)
+		}
+	}
+	// the slow subscriber reads again, until nothing more arrives
+	var all []packets.ControlPacket
+	var ferr error
+	for round := 0; round < 4000; round++ {
+		arrived := slow.Conn.Pending()
+		pk, err := slow.Recv()
+		if err != nil {
+			ferr = err
+		}
+		all = append(all, pk...)
+		world.Settle()
+		if arrived == 0 && round > 2 {
+			break // nothing is on its way any more (a packet may arrive in many pieces of the tiny buffer's size)
+		}
+	}
+	check("slow", all, ferr)
+	okp, err := ok.Recv()
+	check("ok", okp, err)
+	c.NonTrivial()
+	c.State(fmt.Sprintf("stall n=%d limit=%d", n, limit/100))
+}
